@@ -397,9 +397,11 @@ for _i in range(3):
 class _Rec:
     def __init__(self):
         self.calls = []
+        self.specs = []
 
     def generate(self, spec, output_dir, test_dir):
         self.calls.append(output_dir)
+        self.specs.append(spec)
 
 
 def _untraced(fn):
@@ -474,6 +476,37 @@ def gate_passes_when_valid(n_models, plugin):
         gm.json = orig_json
         gm.jsonschema.validate = orig_validate
     return len(rec.calls) == 1
+
+
+def command_line_order(i0, i1, i2, n):
+    """the model the plugin receives from `python -m generator --model f0 f1 [f2]` is the first file extended in
+    COMMAND-LINE order by the others (any order of the three files, a file may be named twice)"""
+    import generator.__main__ as gm
+    from vlib.xhrt import concretize
+
+    idx = [concretize(i0, 3), concretize(i1, 3), concretize(i2, 3)][: concretize(n, 4)]
+    files = [MODEL_FILES[i] for i in idx]
+    rec = _Rec()
+    orig_plugin = gm.custom_plugin
+    gm.custom_plugin = lambda name: rec
+    orig_json, gm.json = gm.json, _Json
+    orig_validate = gm.jsonschema.validate
+    gm.jsonschema.validate = _untraced(orig_validate)
+    try:
+        gm.main(["--plugin", "python", "--output-dir", os.path.join(_TMP, "o"), "--model"] + files)
+    finally:
+        gm.custom_plugin = orig_plugin
+        gm.json = orig_json
+        gm.jsonschema.validate = orig_validate
+    if len(rec.specs) != 1:
+        return False
+    docs = [small_doc(1 << i, 0, 6, "M%d" % i) for i in idx]
+    want = normal(docs[0])
+    for d in docs[1:]:
+        nd = normal(d)
+        for sec in ("requests", "notifications", "structures", "enumerations", "typeAliases"):
+            want[sec] = want.get(sec, []) + nd.get(sec, [])
+    return readback(rec.specs[0]) == want
 
 
 # ---------------------------------------------------------------- the gate with the REAL jsonschema.validate
